@@ -26,6 +26,7 @@ EXPLANATION = (
     "bookkeeping of the 0x1F and 0xC0 wrappers. R7 optional numeric fields are tested with `is None` in encoders when the falsy value is "
     "encodable. Value-level equality for every field value is not decided."
     ' Rounds 7-8: R2 also: a header is refused only for a wrong prefix or inconsistent lengths (rejects-nothing-else); R8 classifies the 0xC0 decoders by the header class they receive.'
+    " Rounds 9-10: R12 (C13.R3 re-used): every successful read is delivered once with the pair that was read; R13 (C05.R5 re-used): record k of a multi-record message is read at its own position; R14 (C01.R5 re-used): a retry frames the header it was given; R15 (buffer-offset domain): every decoder hands back exactly the bytes beyond the announced length on every returning path that constrains the length, and accepts every length its encoder produces (requests of 0/1 byte, whole records); R1 also decides byte-stuffing (bytes.replace with a longer replacement) as a violation of size()==len(encode()); a clamp against a constant is a named source in the bit domain and is read through only when its bound lies outside the field's valid range."
 )
 ASSUMPTIONS = ["struct pack/unpack layout as computed from the literal format strings", "a message object is an instance of exactly one class of its encoder's union annotation"]
 FLOORS = {"C03.R8": 20, "C03.R1": 30, "C03.R2": 8, "C03.R3": 120, "C03.R4": 8, "C03.R5": 40, "C03.R6": 8, "C03.R7": 4, "C03.R9": 1, "C03.R10": 1, "C03.R11": 1, "C03.R12": 1, "C03.R13": 1, "C03.R14": 1, "C03.R15": 12}
